@@ -405,8 +405,10 @@ package shwap
 // ---------------------------------------------------------------------------------------------
 // C18: the stream decoder of a range container places rows and partial-row proofs by position:
 // row i of the stream becomes Shares[i]; the first row's proof is the first-incomplete-row proof,
-// the last row's proof (of a multi-row range) is the last-incomplete-row proof. (The stream itself,
-// length-delimited protobuf, is A-CODEC.)
+// the last row's proof (of a multi-row range) is the last-incomplete-row proof. The decoded value is a
+// function of the stream alone - whatever the receiver held before (getters decode every attempt of a
+// request into the same value, so anything left over from a rejected response would be verified
+// together with the next, honest one: C06). (The stream itself, length-delimited protobuf, is A-CODEC.)
 
 //@ func (*NamespaceData).ReadFrom
 //@   property C18
@@ -414,15 +416,19 @@ package shwap
 //@   modifies nd
 
 //@ func (*RangeNamespaceData).ReadFrom
-//@   property C18
+//@   property C18 C06
 //@   modifies rngdata
 //@   checks err == nil ==> len(rngdata.Shares) == len(nd) && forall i int :: 0 <= i && i < len(nd) ==> rngdata.Shares[i] == nd[i].Shares
 //@   checks err == nil && len(nd) > 0 ==> rngdata.FirstIncompleteRowProof == nd[0].Proof
 //@   checks err == nil && len(nd) > 1 ==> rngdata.LastIncompleteRowProof == nd[len(nd)-1].Proof
+//@   checks err == nil && len(nd) <= 1 ==> rngdata.LastIncompleteRowProof == nil
+//@   checks err == nil && len(nd) == 0 ==> rngdata.FirstIncompleteRowProof == nil
 //@   loop 1: invariant -1 <= rangeindex && rangeindex < len(nd) && len(rngdata.Shares) == len(nd)
 //@   loop 1: invariant forall j int :: 0 <= j && j <= rangeindex ==> rngdata.Shares[j] == nd[j].Shares
 //@   loop 1: invariant rangeindex >= 0 ==> rngdata.FirstIncompleteRowProof == nd[0].Proof
 //@   loop 1: invariant rangeindex >= 1 ==> rngdata.LastIncompleteRowProof == nd[rangeindex].Proof
+//@   loop 1: invariant rangeindex < 1 ==> rngdata.LastIncompleteRowProof == nil
+//@   loop 1: invariant rangeindex < 0 ==> rngdata.FirstIncompleteRowProof == nil
 
 // ---------------------------------------------------------------------------------------------
 // C02: verified namespace data is complete.
